@@ -143,6 +143,8 @@ type Listener struct {
 	// ClosedWhileAccepting: Close found a task blocked in Accept, which had been blocked since AcceptSinceAtClose.
 	ClosedWhileAccepting bool
 	AcceptSinceAtClose   uint64
+	// OpenAtClose: accepted connections whose server end was open when the listener was closed.
+	OpenAtClose int
 	// AcceptLog records every Accept call (sequence number and simulated time).
 	AcceptLog []AcceptRec
 	Dialed    int
@@ -334,6 +336,12 @@ func (k *Kernel) mutex(key uintptr) *simMutex {
 
 func (m *simMutex) grantable(t *Task, read bool) bool {
 	if read {
+		// as sync.RWMutex: a blocked Lock call excludes new readers
+		for _, w := range m.waiters {
+			if w != t && !w.loadReq().read {
+				return false
+			}
+		}
 		return m.owner == nil
 	}
 	return m.owner == nil && len(m.readers) == 0
@@ -539,6 +547,7 @@ func (k *Kernel) lnClose(t *Task, l *Listener) {
 	l.CloseSeq = k.step
 	l.CloseAt = k.Elapsed()
 	l.ClosedBy = t.id
+	l.OpenAtClose = k.openAccepted(l)
 	if l.acceptor != nil {
 		l.ClosedWhileAccepting = true
 		l.AcceptSinceAtClose = l.AcceptSince
@@ -675,14 +684,16 @@ func (k *Kernel) setRDL(t *Task, e *Endpoint, at time.Time) {
 		return
 	}
 	e.rdl = at
+	// A deadline in the past does not complete a blocked read by itself: as with
+	// the runtime's poller, the reader is woken and re-checks the deadline when it
+	// runs. That is the expiry event armed here, which competes with the other
+	// runnable tasks: if the deadline has been changed again by then (a reset to
+	// "none" that overtakes the wake-up), the event is stale and the reader stays
+	// blocked.
 	if r := e.in.reader; r != nil && !at.IsZero() && !at.After(time.Now()) {
-		e.in.reader = nil
-		e.rdlGen++
-		k.Fault("read_unblocked_by_deadline")
-		k.complete(r, result{err: eTimeout})
-	} else {
-		k.armRDL(e)
+		k.Fault("read_woken_by_past_deadline")
 	}
+	k.armRDL(e)
 	k.complete(t, result{})
 }
 
@@ -693,14 +704,9 @@ func (k *Kernel) setWDL(t *Task, e *Endpoint, at time.Time) {
 	}
 	e.wdl = at
 	if w := e.out.writer; w != nil && !at.IsZero() && !at.After(time.Now()) {
-		p := e.out
-		p.writer = nil
-		e.wdlGen++
-		k.Fault("write_unblocked_by_deadline")
-		k.complete(w, result{n: p.wdone, err: eTimeout})
-	} else {
-		k.armWDL(e)
+		k.Fault("write_woken_by_past_deadline")
 	}
+	k.armWDL(e)
 	k.complete(t, result{})
 }
 
